@@ -926,6 +926,14 @@ pub fn broadcast_fut_queue_with<T: Clone>(
 unsafe impl<T: Send + Sync + Clone> Send for BroadcastSender<T> {}
 unsafe impl<T: Send + Sync + Clone> Send for BroadcastReceiver<T> {}
 unsafe impl<T: Send + Sync + Clone> Send for BroadcastUniReceiver<T> {}
+// The futures handles share the same queue, where a consumer on another thread
+// clones out of the slot: they need T: Sync exactly like the plain handles.
+unsafe impl<T: Send + Sync + Clone> Send for BroadcastFutSender<T> {}
+unsafe impl<T: Send + Sync + Clone> Send for BroadcastFutReceiver<T> {}
+unsafe impl<R, F: FnMut(&T) -> R + Send, T: Send + Sync + Clone> Send
+    for BroadcastFutUniReceiver<R, F, T>
+{
+}
 
 #[cfg(test)]
 mod test {
